@@ -12,6 +12,16 @@ class Injected(Exception):
         self.n = n
 
 
+class InjectedBase(BaseException):
+    """a fault that does not derive from Exception (like SystemExit / KeyboardInterrupt): the framework's
+    guards are bare `except:` clauses, so with the FMS attached these are swallowed as well"""
+
+    def __init__(self, site, n):
+        super().__init__(f"injected BaseException at {site} (call {n})")
+        self.site = site
+        self.n = n
+
+
 class Ctx:
     def __init__(self):
         self.reset()
@@ -20,6 +30,7 @@ class Ctx:
         self.log = []  # (tag, fpga_us, snapshot|None)
         self.counts = {}
         self.faults = {}  # site -> set of call numbers | "all"
+        self.base_faults = set()  # sites whose fault is a BaseException subclass
         self.fired = []  # (site, n, exception object)
         self.writes = {}  # (site, n) -> [(comp, attr, value)]
         self.robot = None
@@ -47,7 +58,7 @@ class Ctx:
             setattr(self.robot.__dict__[cname], attr, value)
         plan = self.faults.get(tag)
         if plan is not None and (plan == "all" or n in plan):
-            e = Injected(tag, n)
+            e = (InjectedBase if tag in self.base_faults else Injected)(tag, n)
             self.fired.append((tag, n, e))
             raise e
         return n
